@@ -37,7 +37,9 @@ int write_wdc(Memory *memory, FILE *out)
 
   for (n = memory->low_address; n <= memory->high_address; n++)
   {
-    if (memory->read_debug(n) == DL_EMPTY || length == 65536)
+    const bool is_empty = memory->read_debug(n) == DL_EMPTY;
+
+    if (is_empty || length == 65536)
     {
       if (length != 0)
       {
@@ -49,7 +51,9 @@ int write_wdc(Memory *memory, FILE *out)
         address = -1;
       }
     }
-      else
+
+    // A full buffer starts a new block with the current byte.
+    if (! is_empty)
     {
       if (address == -1) { address = n; }
 
